@@ -3,8 +3,8 @@ SPEC = {
     'engine': 'rx', 'harness': 'rx.cpp',
     'repo_srcs': ['N2kMsg.cpp', 'N2kStream.cpp', 'N2kMessages.cpp', 'N2kTimer.cpp', 'N2kGroupFunction.cpp', 'N2kGroupFunctionDefaultHandlers.cpp', 'NMEA2000.cpp'],
     'variants': ['', 't32'],
-    'lean_modules': ['N2k.Props.C02'], 'props_files': ['N2k/Props/C02.lean'],
-    'translators': ['pgn_tables'],
+    'lean_modules': ['N2k.Props.Consts.C02', 'N2k.Props.C02'], 'props_files': ['N2k/Props/Consts/C02.lean', 'N2k/Props/C02.lean'],
+    'translators': ['constants', 'pgn_tables'],
     'case_start': ['reset'],
     'trusted_base': [
         "model N2k/Model/Rx.lean transcribes SetN2kCANBufMsg, FindFreeCANMsgIndex (non-TP call, incl. the two fix: commits: "
